@@ -46,6 +46,7 @@ type Occ struct {
 	StatIndex  int
 	GlobalDef  bool // write to a free name (a global definition site)
 	FuncNameBase bool // base name of `function a.b.c()` (a read of a, or a def when no path)
+	Stat       *Node // for assignment targets: the SAssign / SFunction statement
 }
 
 type scope struct {
@@ -166,7 +167,11 @@ func (b *binder) stat(s *Node, blockEnd int) {
 	case SAssign:
 		b.explist(s.List2)
 		for _, v := range s.List {
+			n0 := len(b.res.Occs)
 			b.assignTarget(v)
+			if v.K == EName && len(b.res.Occs) > n0 {
+				b.res.Occs[len(b.res.Occs)-1].Stat = s
+			}
 		}
 	case SCall:
 		b.exp(s.A)
